@@ -835,3 +835,145 @@ func loadAddr(v ssa.Value) ssa.Value {
 	}
 	return nil
 }
+
+// RunLookaheadSkip: the glyphs of a lookahead sequence are found by skipping
+// ignored glyphs up to the end of the whole sequence — the lookahead lies
+// outside the window [a,b) of the input. In every apply method that ranges
+// over a Lookahead list, the test of a lookahead element is therefore
+// dominated, inside that range loop, by the head of a skipping loop (a loop
+// that calls Keep): the first lookahead glyph too is looked for behind the
+// ignored glyphs that follow the input. The three formats of the chaining
+// context subtables are siblings; one that tests first and skips afterwards
+// misses a lookahead behind an ignored glyph when it runs nested (b short of
+// the end of the sequence).
+func RunLookaheadSkip(w *World, r *Report, fns []*ssa.Function) {
+	r.Rule("lookaheadskip: in every apply method of package gtab that ranges over a field named Lookahead, on every path from the function entry, and from one test of a lookahead element to the next, the head of a skipping loop (a small loop that calls Keep and whose window condition involves the length of the sequence) is passed before a branch condition that depends on the current lookahead element: ignored glyphs are skipped up to the end of the sequence before the first lookahead element is tested, as before the others")
+	n := 0
+	for _, fn := range fns {
+		if !strings.HasSuffix(fnPkgPath(fn), "/opentype/gtab") || fn.Name() != "apply" || len(fn.Blocks) == 0 {
+			continue
+		}
+		loops := naturalLoops(fn)
+		for _, l := range loops {
+			// a range loop over a slice loaded from a field Lookahead: element loads x[idx] with idx the range index
+			var elems []ssa.Value
+			for b := range l.body {
+				for _, in := range b.Instrs {
+					ld, ok := in.(*ssa.UnOp)
+					if !ok || ld.Op != token.MUL {
+						continue
+					}
+					ia, ok := ld.X.(*ssa.IndexAddr)
+					if !ok {
+						continue
+					}
+					src := ia.X
+					if l2, ok := src.(*ssa.UnOp); ok && l2.Op == token.MUL {
+						if fieldName(l2.X) == "Lookahead" {
+							elems = append(elems, ld)
+						}
+					}
+				}
+			}
+			if len(elems) == 0 {
+				continue
+			}
+			// innermost such loop only (the rule loop around it also contains the loads)
+			inner := true
+			for _, l2 := range loops {
+				if l2 != l && l.body[l2.head] && len(l2.body) < len(l.body) {
+					for _, e := range elems {
+						if l2.body[e.(ssa.Instruction).Block()] {
+							inner = false
+						}
+					}
+				}
+			}
+			if !inner {
+				continue
+			}
+			// heads of skipping loops whose window reaches to the end of the sequence (the condition involves a len)
+			skipHead := map[*ssa.BasicBlock]bool{}
+			for _, l2 := range loops {
+				calls := false
+				for b := range l2.body {
+					for _, in := range b.Instrs {
+						if c, ok := in.(*ssa.Call); ok && c.Call.StaticCallee() != nil && c.Call.StaticCallee().Name() == "Keep" {
+							calls = true
+						}
+					}
+				}
+				if !calls || len(l2.head.Instrs) == 0 || len(l2.body) > 6 {
+					continue
+				}
+				if ifi, ok := l2.head.Instrs[len(l2.head.Instrs)-1].(*ssa.If); ok {
+					for v := range backSlice(ifi.Cond) {
+						if c, ok := v.(*ssa.Call); ok {
+							if bi, ok := c.Call.Value.(*ssa.Builtin); ok && bi.Name() == "len" {
+								skipHead[l2.head] = true
+							}
+						}
+					}
+				}
+			}
+			// tests of the current lookahead element
+			tests := map[*ssa.BasicBlock]*ssa.If{}
+			for b := range l.body {
+				if len(b.Instrs) == 0 {
+					continue
+				}
+				ifi, ok := b.Instrs[len(b.Instrs)-1].(*ssa.If)
+				if !ok {
+					continue
+				}
+				bs := backSlice(ifi.Cond)
+				for _, e := range elems {
+					if bs[e] {
+						tests[b] = ifi
+					}
+				}
+			}
+			// forward: can a test be reached without a skip since function entry or since the previous test?
+			const stSkipped, stNot = 1, 2
+			in := map[*ssa.BasicBlock]int{fn.Blocks[0]: stNot}
+			work := []*ssa.BasicBlock{fn.Blocks[0]}
+			unskipped := map[*ssa.BasicBlock]bool{}
+			for len(work) > 0 {
+				b := work[len(work)-1]
+				work = work[:len(work)-1]
+				out := in[b]
+				if skipHead[b] {
+					out = stSkipped
+				}
+				if _, isT := tests[b]; isT {
+					if out&stNot != 0 {
+						unskipped[b] = true
+					}
+					out = stNot
+				}
+				for _, sc := range b.Succs {
+					if in[sc]|out != in[sc] {
+						in[sc] |= out
+						work = append(work, sc)
+					}
+				}
+			}
+			var tbs []*ssa.BasicBlock
+			for b := range tests {
+				tbs = append(tbs, b)
+			}
+			sort.Slice(tbs, func(i, j int) bool { return tbs[i].Index < tbs[j].Index })
+			for _, b := range tbs {
+				ifi := tests[b]
+				n++
+				key := r.MkKey("lookaheadskip", fnName(fn), "test of a lookahead element")
+				if !unskipped[b] {
+					r.OK("lookaheadskip", key, w.Pos(ifi.Cond.Pos()), "ignored glyphs are skipped first on every path")
+				} else {
+					r.Fail("lookaheadskip", key, w.Pos(ifi.Cond.Pos()), "the lookahead element can be tested against the glyph at the current position without ignored glyphs having been skipped up to the end of the sequence since the input was matched (or since the previous lookahead element): when the lookup runs nested (the input window ends before the sequence does) and an ignored glyph follows the input, the lookahead behind it is not found, while the other formats of the subtable find it", nil)
+				}
+			}
+		}
+	}
+	r.Floor("lookaheadskip", 3)
+}
